@@ -188,7 +188,7 @@ impl Property for C18 {
         "strings brought into the stated domain by construction (backslashes removed, adjacent \
          separators collapsed, shorter than 65536 bytes): arbitrary Unicode, meta-dense mixes of the \
          13 meta-characters with separators / `-` / `!` / digits / non-ASCII, flag-, class-, \
-         repetition- and tree-like snippets, a few strings just below the size limit; plus a sweep \
+         repetition- and tree-like snippets, strings just below the size limit (fixed units, and characters whose other casing is longer in UTF-8); plus a sweep \
          of every ASCII character and sampled non-ASCII scalar values as `c` and `xcy`; one \
          evaluation = one round-trip or one rejected mutant; non-trivial = the string contains a \
          meta-character and a separator or non-ASCII character; distinct by string"
@@ -204,7 +204,7 @@ impl Property for C18 {
         }
     }
     fn required_counters(&self) -> Vec<&'static str> {
-        vec!["with_meta", "no_meta_unchanged", "swept_chars", "near_size_limit"]
+        vec!["with_meta", "no_meta_unchanged", "swept_chars", "near_size_limit", "near_size_limit_case_expanding"]
     }
     fn decode(&self, t: &mut Tape) -> Case {
         let mut s = String::new();
@@ -285,6 +285,41 @@ impl Property for C18 {
             st.count("near_size_limit");
             if let Err(m) = check_text(&s, st) {
                 return Err((Case { text: s }, m));
+            }
+        }
+        // ... and strings whose length in bytes is just below the limit while a differently-cased
+        // form would not be: the limit concerns the text itself.  Characters whose upper- or
+        // lower-case form is longer in UTF-8 (`ɐ`, `İ`, `ŉ`, `ΐ`, ...) are found by a sweep.
+        let expanding: Vec<char> = (0x80u32..0x3_0000)
+            .filter_map(char::from_u32)
+            .filter(|c| {
+                let n = c.len_utf8();
+                c.to_uppercase().map(|x| x.len_utf8()).sum::<usize>() > n || c.to_lowercase().map(|x| x.len_utf8()).sum::<usize>() > n
+            })
+            .collect();
+        let picks = match tier {
+            Tier::Quick => 6usize,
+            Tier::Thorough => 48,
+        };
+        if !expanding.is_empty() {
+            let stride = (expanding.len() / picks).max(1);
+            for (k, c) in expanding.iter().step_by(stride).take(picks).enumerate() {
+                let n = c.len_utf8();
+                // (1) the character alone, repeated to just below the limit (about 2/3 of it when
+                //     k is odd: the other casing of the whole string would cross the limit)
+                let total = if k % 2 == 0 { 0xFFFF } else { 0xB000 };
+                let a: String = c.to_string().repeat(total / n);
+                // (2) exactly limit - 1 bytes with a single such character
+                let mut b = "a".repeat(0xFFFF - n);
+                b.insert(0xFFFF / 2, *c);
+                for s in [a, b] {
+                    let s = into_domain(&s);
+                    st.count("near_size_limit");
+                    st.count("near_size_limit_case_expanding");
+                    if let Err(m) = check_text(&s, st) {
+                        return Err((Case { text: s }, m));
+                    }
+                }
             }
         }
         Ok(())
